@@ -171,3 +171,19 @@ META["C11"] = {
         "bin contents within 8 eps of value*weight/area, the weight being what point.weight() returned to the integrand",
     ],
 }
+
+META["C15"] = {
+    "level": "model_checking",
+    "parts": 9,
+    "tiers": {
+        "quick": {"shards": 6, "parts_used": [0, 1, 2, 3, 4, 5], "deadline_s": 400,
+                  "bounds": "operations run(1), run(2), reload, rollback(k) for every k in 0..n+1; at most 4 iterations (calls 5,3,7,4); BFS to a fixed point on canonical states plus every history of depth <= 4 without state merging; PLAIN, VEGAS default / user grid, MULTI-CHANNEL default / user weights with a disabled channel; engines mt19937, minstd_rand, ranlux48, knuth_b; 3 types; built with _GLIBCXX_ASSERTIONS and the library's own asserts"},
+        "thorough": {"shards": 9, "deadline_s": 3000, "bounds": "as quick with histories of depth <= 5 and all nine standard engines"},
+    },
+    "rule": "explicit-state BFS over real checkpoint objects (copied, not replayed) with canonical state = serialised text + 'read back from text while holding results' flag, and a stateless DFS over all operation histories to the depth bound; distinct_nontrivial = distinct histories executed by the DFS; reference model = golden texts of the uninterrupted run",
+    "binding": "no separate model: every transition calls the real rollback / integrators / stream constructors; the golden texts come from the same integrators run without interruption",
+    "assumptions": [
+        "a crash, failed assertion or sanitizer report of the check binary is reported as a violation",
+        "the canonical state of the BFS assumes that text plus the flag determine the future; the DFS without merging guards that assumption up to the depth bound",
+    ],
+}
